@@ -3,12 +3,13 @@
 usage: seed_prompt.py Cxx  (worktree /tmp/seed/wt-Cxx, output /tmp/seed/out-Cxx)"""
 import json, sys
 pid = sys.argv[1]
+rnd = sys.argv[2] if len(sys.argv) > 2 else ""      # e.g. "r2-": worktree /tmp/seed/wt-r2-Cxx
 for l in open('/verif/properties.jsonl'):
     d = json.loads(l)
     if d['id'] == pid:
         break
-wt = "/tmp/seed/wt-%s" % pid
-out = "/tmp/seed/out-%s" % pid
+wt = "/tmp/seed/wt-%s%s" % (rnd, pid)
+out = "/tmp/seed/out-%s%s" % (rnd, pid)
 print(f"""You are working on a scratch git worktree of the CosmWasm/sylvia repository (a Rust proc-macro framework that generates CosmWasm smart-contract message types, dispatch, entry points, reply routing and multitest helpers from annotated traits/impls). The worktree is at {wt}. Work ONLY inside {wt} and {out}. Do NOT read or touch /repo or /verif. The sandbox is offline: always use `cargo ... --offline` and set `CARGO_TARGET_DIR={wt}/target`. Do not commit anything.
 
 Here is a semantic property that sylvia is supposed to satisfy:
@@ -30,6 +31,6 @@ DELIVERABLES, all in {out}/ :
   - patch.diff : `git diff` of your change to sylvia's source only (NOT including the demo test)
   - demo.rs (the demonstration test file; say in README where it has to be placed to run, e.g. sylvia/tests/seeded_demo.rs, and the exact cargo command)
   - README.md : which clause of the property is broken, what specific circumstance it needs to manifest, the commands you ran and their observed results (baseline suite with patch: pass; demo without patch: pass; demo with patch: fail + the failure message).
-If you have time left after one solid change, add a second, different one as patch2.diff / demo2.rs (a different mechanism, not a variation). Quality over quantity.
+Prefer, where the property allows it, a less central code path (interface-side generation, generics handling, custom chain types, multitest helpers, the run-time library under sylvia/src, feature-gated branches) over the single most obvious function. If you have time left after one solid change, add a second, different one as patch2.diff / demo2.rs (a different mechanism, not a variation). Quality over quantity.
 
 At the end, leave the worktree with NO change applied (git checkout -- . and remove your demo test from it), and reply with a short summary of each patch (what it changes, what it needs to manifest).""")
